@@ -134,6 +134,8 @@ def splice(caller, bi, callee):
             seen.add(s)
             calls.append(c)
     caller.inlined.append(callee.key)
+    caller.inline_sites = getattr(caller, 'inline_sites', []) + [{'callee': callee.key, 'name': callee.name, 'call_block': bi, 'cont': target,
+                                                                 'dest': copy.deepcopy(dest), 'ret_local': loff}]
     caller.inl_from = min(getattr(caller, 'inl_from', loff), loff)
     caller.ret_locals = getattr(caller, 'ret_locals', set()) | {loff} | {loff + r for r in getattr(callee, 'ret_locals', ())}
     for k in getattr(callee, 'inlined', []):
@@ -150,12 +152,13 @@ def _split_all(prog):
                 f._cache.clear()
 
 
-def inline_program(prog, level=1):
+def inline_program(prog, level=1, force=()):
     kn = known()
     cand = {}
     for f in prog.fns.values():
         f.inlined = []
-        if f.crate in WORKSPACE and f.has_body and f.dk in ('Fn', 'AssocFn') and not f.derived and ident(f) not in kn \
+        if f.crate in WORKSPACE and f.has_body and f.dk in ('Fn', 'AssocFn') and not f.derived \
+                and (ident(f) not in kn or (f.crate, ident(f)[1], f.name) in force) \
                 and not f.no_mangle and f.abi in ('', 'Rust'):
             cand[f.key] = f
     prog.inlined_helpers = sorted(cand)
@@ -483,6 +486,8 @@ def thread_function(fn, prog):
             ty = fn.local_ty(t['d']['l'])
             if ty.startswith('core::result::Result<'):
                 cands.append((None, t['d']['l'], ('variant', 'core::result::Result', 'Err', '1')))
+            elif ty.startswith('core::option::Option<'):
+                cands.append((None, t['d']['l'], ('variant', 'core::option::Option', 'None', '0')))
         done = False
         for (k, x, kn) in cands:
             if k is None:
